@@ -5,6 +5,7 @@ function-family table of the implementation (regenerated on every run).
 -/
 import DimModel.Lib.Transform
 import DimModel.Gen.TableC08
+import DimModel.Proofs.C08
 namespace DimModel
 open Lib
 
@@ -93,5 +94,286 @@ theorem getFunc_table_policy :
 theorem getFunc_table_covers :
     ∀ f ∈ ["sum", "prod", "mean", "var", "std", "min", "max", "ptp", "all", "any", "median"],
       ∀ s ∈ [false, true], (Gen.getFuncTable.any fun r => r.1 == f && r.2.1 == s) = true := by decide
+
+/-! ## end-to-end statements about `reduceAxis` (scalar results, names vs storage order, positions) -/
+
+open AxisLemmas
+
+/-- **axis=None, any rank**: the result is a scalar - the reduction of ALL cells in row-major
+order: the reduced list has one entry per cell and the cell with index `j` sits at the row-major
+position of `j` -/
+theorem reduce_none_row_major {α : Type} (red : List α → α) (a : DimArray α) :
+    reduceAxis red a .none = .ok (.inl (red a.vals.toList)) ∧
+    a.vals.toList.length = prod a.vals.shape ∧
+    ∀ j, InRange a.vals.shape j → a.vals.toList[ravel a.vals.shape j]? = some (a.vals.get j) :=
+  ⟨reduce_none_scalar red a, toList_length a.vals, toList_getElem?_ravel a.vals⟩
+
+/-- **rank 1**: reducing a 1-D array along its only axis (however the axis is designated) returns
+a scalar, never an array with a stale axis: the reduction of all its cells in order -/
+theorem reduce_rank1_scalar {α : Type} (red : List α → α) (a : DimArray α) (k : DimKey) (pos : Nat)
+    (hpos : dealWithAxis a (.one k) = .ok (a, some pos)) (hrank : a.ndim = 1)
+    (hshape : a.vals.shape.length = 1) :
+    reduceAxis red a (.one k) = .ok (.inl (red a.vals.toList)) := by
+  have hp0 : pos = 0 := by have := (dealWithAxis_one_ok a a k pos hpos).2; omega
+  subst hp0
+  obtain ⟨n, hn⟩ : ∃ n, a.vals.shape = [n] := by
+    match hs : a.vals.shape, hshape with
+    | [n], _ => exact ⟨n, rfl⟩
+  unfold reduceAxis
+  simp only [hpos, bind, Except.bind, hrank, beq_self_eq_true, if_true, pure, Except.pure,
+    fibre_rank1 a n hn]
+
+/-- the only axis of a 1-D array can be designated by its name, by `0` or by `-1` -/
+theorem dealWithAxis_rank1 {α : Type} (a : DimArray α) (hrank : a.ndim = 1) :
+    dealWithAxis a (.one (.name (a.dims[0]'(by rw [← ndim_eq_dims_length]; omega)))) = .ok (a, some 0) ∧
+    dealWithAxis a (.one (.pos 0)) = .ok (a, some 0) ∧
+    dealWithAxis a (.one (.pos (-1))) = .ok (a, some 0) := by
+  have hl : a.dims.length = 1 := by rw [← ndim_eq_dims_length]; exact hrank
+  refine ⟨?_, ?_, ?_⟩
+  · have hnd : a.dims.Nodup := by
+      match hd : a.dims, hl with
+      | [x], _ => simp
+    exact dealWithAxis_name a 0 (by omega) hnd
+  · simp [dealWithAxis, hrank, pure, Except.pure]
+  · simp [dealWithAxis, hrank, pure, Except.pure]
+
+example : reduceAxis (fun l => l.foldl (· + ·) 0)
+    ({ axes := [{ name := "t", labels := [.num 1, .num 2, .num 3], kind := .i }],
+       vals := { shape := [3], get := fun j => j.getD 0 0 + 1 } } : DimArray Nat) (.one (.pos (-1)))
+    = .ok (.inl 6) := by rfl
+
+/-- **positions, negative included**: position `i` designates dimension `i` for `0 ≤ i < rank`,
+dimension `rank + i` for `-rank ≤ i < 0`, and is an IndexError otherwise -/
+theorem dealWithAxis_pos_spec {α : Type} (a : DimArray α) (i : Int) :
+    dealWithAxis a (.one (.pos i)) =
+      if 0 ≤ i ∧ i < (a.ndim : Int) then .ok (a, some i.toNat)
+      else if -(a.ndim : Int) ≤ i ∧ i < 0 then .ok (a, some (i + (a.ndim : Int)).toNat)
+      else .error .index := by
+  simp only [dealWithAxis, pure, Except.pure]
+  by_cases h0 : i < 0
+  · have hn : ¬ (0 ≤ i ∧ i < (a.ndim : Int)) := by omega
+    simp only [h0, if_true, hn, if_false]
+    by_cases h1 : -(a.ndim : Int) ≤ i
+    · have h2 : ¬ (i + (a.ndim : Int) < 0) := by omega
+      have h3 : ¬ (i + (a.ndim : Int) ≥ (a.ndim : Int)) := by omega
+      simp [h1, h2, h3]
+    · have h2 : i + (a.ndim : Int) < 0 := by omega
+      simp [h1, h2]
+  · simp only [h0, if_false]
+    by_cases h1 : i < (a.ndim : Int)
+    · have h2 : 0 ≤ i := by omega
+      have h3 : ¬ (i ≥ (a.ndim : Int)) := by omega
+      simp [h1, h2, h3]
+    · have h3 : i ≥ (a.ndim : Int) := by omega
+      simp [h1, h3]
+
+/-- `-k` designates dimension `rank - k` (`1 ≤ k ≤ rank`) -/
+theorem dealWithAxis_neg {α : Type} (a : DimArray α) (k : Nat) (hk1 : 1 ≤ k) (hk2 : k ≤ a.ndim) :
+    dealWithAxis a (.one (.pos (-(k : Int)))) = .ok (a, some (a.ndim - k)) := by
+  rw [dealWithAxis_pos_spec]
+  have h1 : ¬ (0 ≤ -(k : Int) ∧ -(k : Int) < (a.ndim : Int)) := by omega
+  have h2 : -(a.ndim : Int) ≤ -(k : Int) ∧ -(k : Int) < 0 := by omega
+  have h3 : (-(k : Int) + (a.ndim : Int)).toNat = a.ndim - k := by omega
+  simp only [h1, h2, if_false, if_true, and_self, h3]
+
+/-- a position outside `-rank .. rank-1` is an IndexError, an unknown name a ValueError -/
+theorem dealWithAxis_out_of_range {α : Type} (a : DimArray α) (i : Int)
+    (h : i ≥ (a.ndim : Int) ∨ i < -(a.ndim : Int)) :
+    dealWithAxis a (.one (.pos i)) = .error .index := by
+  rw [dealWithAxis_pos_spec]
+  have h1 : ¬ (0 ≤ i ∧ i < (a.ndim : Int)) := by omega
+  have h2 : ¬ (-(a.ndim : Int) ≤ i ∧ i < 0) := by omega
+  simp only [h1, h2, if_false]
+
+theorem dealWithAxis_unknown_name {α : Type} (a : DimArray α) (s : String) (h : s ∉ a.dims) :
+    dealWithAxis a (.one (.name s)) = .error .value := by
+  have : ¬ (a.dims.idxOf s < a.dims.length) := fun hlt => h (List.idxOf_lt_length_iff.mp hlt)
+  simp [dealWithAxis, this]
+
+/-- reducing by position (negative or not) is reducing by the name at that position -/
+theorem reduce_neg_eq_name {α : Type} (red : List α → α) (a : DimArray α) (k : Nat) (hk1 : 1 ≤ k)
+    (hk2 : k ≤ a.ndim) (hn : a.dims.Nodup) :
+    reduceAxis red a (.one (.pos (-(k : Int)))) =
+      reduceAxis red a (.one (.name (a.dims[a.ndim - k]'(by rw [← ndim_eq_dims_length]; omega)))) := by
+  have h1 := dealWithAxis_neg a k hk1 hk2
+  have h2 := dealWithAxis_name a (a.ndim - k) (by rw [← ndim_eq_dims_length]; omega) hn
+  unfold reduceAxis
+  rw [h1, h2]
+
+/-- **reduction by NAME**: reducing a rank ≥ 2 array along the dimension named `d` drops exactly
+that dimension and every result cell, addressed by the names of the remaining dimensions, is the
+reduction of the cells at the same coordinates with `d` running over its positions in order -/
+theorem reduce_name_spec {α : Type} (red : List α → α) (a : DimArray α) (pos : Nat)
+    (hpos : pos < a.dims.length) (hn : a.dims.Nodup) (hrank : a.ndim ≠ 1) :
+    ∃ r, reduceAxis red a (.one (.name a.dims[pos])) = .ok (.inr r) ∧
+      r.axes = a.axes.eraseIdx pos ∧ r.dims = a.dims.eraseIdx pos ∧ r.attrs = a.attrs ∧
+      r.vals.shape = a.vals.shape.eraseIdx pos ∧
+      (∀ j, r.vals.get j = red (fibre a pos j)) ∧
+      ∀ c, r.at c = red ((List.range (a.vals.shape.getD pos 0)).map
+                          fun k => a.at (setCoord c a.dims[pos] k)) := by
+  have hd := dealWithAxis_name a pos hpos hn
+  have hr : (a.ndim == 1) = false := by simpa using hrank
+  refine ⟨{ axes := a.axes.eraseIdx pos,
+             vals := { shape := a.vals.shape.eraseIdx pos, get := fun j => red (fibre a pos j) },
+             vkind := a.vkind, attrs := a.attrs }, ?_, rfl, ?_, rfl, rfl, fun _ => rfl, ?_⟩
+  · unfold reduceAxis
+    simp only [hd, bind, Except.bind, hr, Bool.false_eq_true, if_false, pure, Except.pure]
+  · exact dims_eraseIdx a.axes pos
+  · intro c
+    show red (fibre a pos ((List.map (·.name) (a.axes.eraseIdx pos)).map c)) = _
+    rw [dims_eraseIdx, ← fibre_at a pos hpos hn c]
+    rfl
+
+/-- **storage order is irrelevant**: reducing along the dimension named `d` commutes with
+transposing the array first. Both reductions succeed; the results have the same axes up to the
+transposition, the same metadata, and for every choice of coordinates of the remaining dimensions
+the reduced fibre is the very same list of cells, hence the result cells agree. -/
+theorem reduce_commute_transpose {α : Type} (red : List α → α) (a : DimArray α) (p : List Nat)
+    (hp : IsPerm p a.axes.length) (hs : a.vals.shape.length = a.axes.length) (hn : a.dims.Nodup)
+    (d : String) (hd : d ∈ a.dims) (hrank : a.ndim ≠ 1) :
+    ∃ ra rb, reduceAxis red a (.one (.name d)) = .ok (.inr ra) ∧
+      reduceAxis red (transposeBy a p) (.one (.name d)) = .ok (.inr rb) ∧
+      rb.axes.Perm ra.axes ∧ rb.attrs = ra.attrs ∧
+      (∀ c, fibre (transposeBy a p) ((transposeBy a p).dims.idxOf d) (rb.dims.map c) =
+            fibre a (a.dims.idxOf d) (ra.dims.map c)) ∧
+      ∀ c, rb.at c = ra.at c := by
+  -- positions of `d` in both arrays
+  have hpa : a.dims.idxOf d < a.dims.length := List.idxOf_lt_length_of_mem hd
+  have hperm := transposeBy_dims_perm a p hp
+  have hnb : (transposeBy a p).dims.Nodup := hperm.nodup_iff.mpr hn
+  have hdb : d ∈ (transposeBy a p).dims := hperm.mem_iff.mpr hd
+  have hpb : (transposeBy a p).dims.idxOf d < (transposeBy a p).dims.length :=
+    List.idxOf_lt_length_of_mem hdb
+  have hlenb : (transposeBy a p).dims.length = p.length := by
+    simp [transposeBy, DimArray.dims]
+  have hrankb : (transposeBy a p).ndim ≠ 1 := by
+    have : (transposeBy a p).ndim = a.ndim := by
+      simp [transposeBy, DimArray.ndim, hp.1]
+    rw [this]; exact hrank
+  have ea : a.dims[a.dims.idxOf d] = d := List.getElem_idxOf hpa
+  have eb : (transposeBy a p).dims[(transposeBy a p).dims.idxOf d] = d := List.getElem_idxOf hpb
+  obtain ⟨ra, hra, hra_axes, hra_dims, hra_attrs, _, _, hra_at⟩ :=
+    reduce_name_spec red a (a.dims.idxOf d) hpa hn hrank
+  obtain ⟨rb, hrb, hrb_axes, hrb_dims, hrb_attrs, _, _, hrb_at⟩ :=
+    reduce_name_spec red (transposeBy a p) ((transposeBy a p).dims.idxOf d) hpb hnb hrankb
+  rw [ea] at hra hra_at
+  rw [eb] at hrb hrb_at
+  -- the position of `d` in the transposed array is sent by `p` to its position in `a`
+  have hpb' : (transposeBy a p).dims.idxOf d < p.length := hlenb ▸ hpb
+  have hpp : p[(transposeBy a p).dims.idxOf d] = a.dims.idxOf d := by
+    have h1 := transposeBy_dims_getElem a p hp _ hpb'
+    rw [eb] at h1
+    exact (List.getElem_inj hn).mp (h1.symm.trans ea.symm)
+  have hsize : (transposeBy a p).vals.shape.getD ((transposeBy a p).dims.idxOf d) 0 =
+      a.vals.shape.getD (a.dims.idxOf d) 0 := by
+    have hgen : ∀ q (hq : q < p.length),
+        (transposeBy a p).vals.shape.getD q 0 = a.vals.shape.getD p[q] 0 := by
+      intro q hq
+      simp only [transposeBy, NDArr.transpose]
+      rw [List.getD_eq_getElem?_getD, List.getElem?_map, List.getElem?_eq_getElem hq]
+      rfl
+    rw [hgen _ hpb', hpp]
+  have hfib : ∀ c, fibre (transposeBy a p) ((transposeBy a p).dims.idxOf d) (rb.dims.map c) =
+      fibre a (a.dims.idxOf d) (ra.dims.map c) := by
+    intro c
+    rw [hrb_dims, hra_dims, fibre_at _ _ hpb hnb c, fibre_at a _ hpa hn c, hsize, ea, eb]
+    apply List.map_congr_left
+    intro k _
+    exact transposeBy_at a p hp hs _
+  refine ⟨ra, rb, hra, hrb, ?_, ?_, hfib, ?_⟩
+  · -- axes: the same set of (distinct) axes
+    have haxn : a.axes.Nodup := nodup_of_map_nodup (·.name) (show (a.axes.map (·.name)).Nodup from hn)
+    have hbperm := transposeBy_axes_perm a p hp
+    have hbxn : (transposeBy a p).axes.Nodup := hbperm.nodup_iff.mpr haxn
+    have hpa' : a.dims.idxOf d < a.axes.length := by simpa [DimArray.dims] using hpa
+    have hpb'' : (transposeBy a p).dims.idxOf d < (transposeBy a p).axes.length := by
+      simpa [DimArray.dims] using hpb
+    have hsame : (transposeBy a p).axes[(transposeBy a p).dims.idxOf d] = a.axes[a.dims.idxOf d] := by
+      have := transposeBy_axes a p _ hpb'
+      rw [this, hpp, List.getD_eq_getElem?_getD, List.getElem?_eq_getElem hpa']; rfl
+    rw [hrb_axes, hra_axes]
+    rw [List.perm_ext_iff_of_nodup (hbxn.sublist (List.eraseIdx_sublist ..))
+      (haxn.sublist (List.eraseIdx_sublist ..))]
+    intro x
+    rw [mem_eraseIdx_nodup hbxn _ hpb'', mem_eraseIdx_nodup haxn _ hpa', hsame, hbperm.mem_iff]
+  · rw [hrb_attrs, hra_attrs]; rfl
+  · intro c
+    rw [hrb_at, hra_at, hsize]
+    congr 1
+    apply List.map_congr_left
+    intro k _
+    exact transposeBy_at a p hp hs _
+
+/-- **a tuple of dimensions, cell level**: with `o = flatten(names, insert=0)` (C11 describes its
+cells: position `g` of the leading grouped axis is the `g`-th combination of member positions in
+row-major order of the listed names), the reduction over the tuple drops the grouped axis, keeps the
+remaining axes of `o` in order and the metadata, and every result cell is the reduction of the cells
+`o[0, j], o[1, j], ...` over ALL grouped positions in order; when no dimension remains the result is
+a scalar, the reduction of all cells of `o`. -/
+theorem reduce_tuple_cells {α : Type} (red : List α → α) (a o : DimArray α) (names : List String)
+    (hall : ∀ s ∈ names, a.dims.contains s = true) (hf : flatten a names (some 0) = .ok o) :
+    (o.ndim = 1 →
+      reduceAxis red a (.many (names.map DimKey.name)) =
+        .ok (.inl (red ((List.range (o.vals.shape.getD 0 0)).map fun g => o.vals.get [g])))) ∧
+    (o.ndim ≠ 1 → ∃ r, reduceAxis red a (.many (names.map DimKey.name)) = .ok (.inr r) ∧
+      r.axes = o.axes.tail ∧ r.attrs = o.attrs ∧ r.vals.shape = o.vals.shape.tail ∧
+      ∀ j, r.vals.get j = red ((List.range (o.vals.shape.getD 0 0)).map fun g => o.vals.get (g :: j))) := by
+  have hd := dealWithAxis_many a o names hall hf
+  constructor
+  · intro h1
+    unfold reduceAxis
+    simp only [hd, bind, Except.bind, h1, beq_self_eq_true, if_true, pure, Except.pure]
+    rfl
+  · intro h1
+    have hr : (o.ndim == 1) = false := by simpa using h1
+    refine ⟨{ axes := o.axes.eraseIdx 0,
+              vals := { shape := o.vals.shape.eraseIdx 0, get := fun j => red (fibre o 0 j) },
+              vkind := o.vkind, attrs := o.attrs }, ?_, ?_, rfl, ?_, fun j => rfl⟩
+    · unfold reduceAxis
+      simp only [hd, bind, Except.bind, hr, Bool.false_eq_true, if_false, pure, Except.pure]
+    · exact List.eraseIdx_zero
+    · exact List.eraseIdx_zero
+
+/-! ### the hypotheses are satisfiable: a 2 x 3 example -/
+
+/-- a 2 x 3 array with the cells 0..5 in row-major order -/
+def C08.ex23 : DimArray Int :=
+  { axes := [{ name := "x", labels := [.num 1, .num 2], kind := .i },
+             { name := "y", labels := [.str "a", .str "b", .str "c"], kind := .U }],
+    vals := { shape := [2, 3], get := fun j => 3 * (j.getD 0 0 : Int) + j.getD 1 0 } }
+
+def C08.isum (l : List Int) : Int := l.foldl (· + ·) 0
+
+open C08 in
+/-- hypotheses of `reduce_name_spec` -/
+example : 1 < ex23.dims.length ∧ ex23.dims.Nodup ∧ ex23.ndim ≠ 1 := by decide
+
+open C08 in
+/-- hypotheses of `reduce_commute_transpose` -/
+example : IsPerm [1, 0] ex23.axes.length ∧ ex23.vals.shape.length = ex23.axes.length ∧ ex23.dims.Nodup ∧
+    "y" ∈ ex23.dims ∧ ex23.ndim ≠ 1 := ⟨⟨rfl, by decide, by decide⟩, by decide⟩
+
+open C08 in
+/-- ... and the two reductions on this input: the row sums `0+1+2`, `3+4+5`, whichever way the array is stored -/
+example :
+    (match reduceAxis isum ex23 (.one (.name "y")) with
+      | .ok (.inr r) => r.vals.toList | _ => []) = [3, 12] ∧
+    (match reduceAxis isum (transposeBy ex23 [1, 0]) (.one (.name "y")) with
+      | .ok (.inr r) => r.vals.toList | _ => []) = [3, 12] := by decide
+
+open C08 in
+/-- hypotheses of `reduce_rank1_scalar` / `dealWithAxis_neg` / `reduce_neg_eq_name` -/
+example : dealWithAxis ex23 (.one (.pos (-1))) = .ok (ex23, some 1) :=
+  dealWithAxis_neg ex23 1 (by decide) (by decide)
+
+open C08 in
+/-- hypotheses of `reduce_tuple_cells` (all dimensions, listed in reverse order: a scalar) -/
+example : (∀ s ∈ ["y", "x"], ex23.dims.contains s = true) ∧
+    (match flatten ex23 ["y", "x"] (some 0) with | .ok o => o.ndim | _ => 7) = 1 ∧
+    (match reduceAxis isum ex23 (.many [.name "y", .name "x"]) with | .ok (.inl v) => v | _ => 7) = 15 := by
+  decide
+
+open C08 in
+example : reduceAxis isum ex23 .none = .ok (.inl 15) := (reduce_none_row_major isum ex23).1
 
 end DimModel
